@@ -81,6 +81,8 @@ class Sched:
             return (not w[2]) or w[1].can_acquire(rec['id'])
         if k == 'wait':              # ('wait', condition)
             return rec['id'] in w[1].notified and w[1].lock.owner is None
+        if k == 'released':
+            return True
         if k == 'lockf':             # ('lockf', kernel, pid, file, op, blocking)
             return (not w[5]) or w[1].compatible(w[2], w[3], w[4])
         return True
@@ -132,6 +134,8 @@ class VLock:
             return False
         self.owner = tid
         self.depth += 1
+        if self.depth == 1:
+            S.me()['held'] = S.me().get('held', 0) + 1
         return True
 
     def release(self):
@@ -143,6 +147,13 @@ class VLock:
         self.depth -= 1
         if self.depth == 0:
             self.owner = None
+            S.me()['held'] = S.me().get('held', 0) - 1
+            # Releasing the LAST lock a thread holds is a scheduling point too: the code that follows (up to the next
+            # blocking primitive) runs outside every critical section and must not touch shared state; the check
+            # verifies that by demanding that such a "stutter" step changes nothing.  (While the thread still holds
+            # another lock -- an exclusive holder keeps the condition's RLock -- it is still inside a critical section.)
+            if S.me()['held'] == 0:
+                S.yield_point(('released',))
 
     def locked(self):
         return self.owner is not None
@@ -185,12 +196,14 @@ class VCondition:
         saved = self.lock.depth
         self.lock.depth = 0
         self.lock.owner = None
+        S.me()['held'] = S.me().get('held', 0) - 1
         self.waiters.append(tid)
         S.events.append(('wait',))
         S.yield_point(('wait', self))
         self.notified.remove(tid)
         self.lock.owner = tid
         self.lock.depth = saved
+        S.me()['held'] = S.me().get('held', 0) + 1
         return True
 
     def notify(self, n=1):
@@ -244,3 +257,342 @@ _SRC_CACHE = {}
 
 def lock_source(repo):
     return Path(repo) / LOCK_PY
+
+
+# ------------------------------------------------------------------ virtual kernel (fcntl table, descriptors)
+import fcntl as _real_fcntl
+import os as _real_os
+
+
+class VKernel:
+    """POSIX record locks as lock.py uses them: one lock mode per (process, file); a request is granted iff it
+    is compatible with the locks of every OTHER process; a process's own lock is replaced (conversion keeps the
+    old lock while it waits); closing ANY descriptor of the file drops the process's lock."""
+
+    def __init__(self, S):
+        self.S = S
+        self.locks = {}     # (pid, file) -> 'SH' | 'EX'
+        self.fds = {}       # pid -> {fd: file}
+        self.log = []
+
+    def compatible(self, pid, path, mode):
+        for (q, f), m in self.locks.items():
+            if f == path and q != pid and (mode == 'EX' or m == 'EX'):
+                return False
+        return True
+
+    def open(self, pid, path):
+        table = self.fds.setdefault(pid, {})
+        fd = 3
+        while fd in table:
+            fd += 1
+        table[fd] = _real_os.path.normpath(path)
+        self.S.events.append(('open', pid, fd))
+        return fd
+
+    def close(self, pid, fd):
+        table = self.fds.setdefault(pid, {})
+        if fd not in table:
+            raise OSError(9, 'Bad file descriptor')
+        path = table.pop(fd)
+        self.locks.pop((pid, path), None)
+        self.S.events.append(('close', pid, fd))
+
+    def lockf(self, pid, fd, op):
+        table = self.fds.setdefault(pid, {})
+        if fd not in table:
+            raise OSError(9, 'Bad file descriptor')
+        path = table[fd]
+        if op & _real_fcntl.LOCK_UN:
+            self.locks.pop((pid, path), None)
+            return
+        mode = 'EX' if op & _real_fcntl.LOCK_EX else 'SH'
+        blocking = not (op & _real_fcntl.LOCK_NB)
+        if self.S.aborting:
+            raise Abort()
+        self.S.yield_point(('lockf', self, pid, path, mode, blocking))
+        if not self.compatible(pid, path, mode):
+            assert not blocking
+            self.S.events.append(('lockf-fail', mode))
+            raise BlockingIOError(11, 'Resource temporarily unavailable')
+        self.locks[(pid, path)] = mode
+
+
+class VOs:
+    """Stands for the `os` module inside one module instance of lock.py (= one process)."""
+
+    def __init__(self, holder, pid):
+        self._holder = holder
+        self._pid = pid
+        self.path = _real_os.path
+        self.O_RDWR = _real_os.O_RDWR
+        self.name = _real_os.name
+
+    def open(self, path, flags, *a, **k):
+        return self._holder.kernel.open(self._pid, path)
+
+    def close(self, fd):
+        return self._holder.kernel.close(self._pid, fd)
+
+
+class VFcntl:
+    LOCK_SH = _real_fcntl.LOCK_SH
+    LOCK_EX = _real_fcntl.LOCK_EX
+    LOCK_NB = _real_fcntl.LOCK_NB
+    LOCK_UN = _real_fcntl.LOCK_UN
+
+    def __init__(self, holder, pid):
+        self._holder = holder
+        self._pid = pid
+
+    def lockf(self, fd, op, *a):
+        return self._holder.kernel.lockf(self._pid, fd, op)
+
+
+def virtualise_os(mod, pid):
+    mod.os = VOs(mod._verif_holder, pid)
+    mod.fcntl = VFcntl(mod._verif_holder, pid)
+
+
+# ------------------------------------------------------------------ conformance of the virtual primitives
+def _scenarios(Lock, RLock, Condition, spawn_join):
+    """Small programs whose outcome does not depend on the schedule; run once on the real `threading` primitives
+    and several times on the virtual ones.  Returns the recorded outcomes."""
+    out = {}
+
+    def s1():
+        L = RLock()
+        r = [L.acquire(), L.acquire(), L.acquire(blocking=False)]
+        L.release(); L.release(); L.release()
+        try:
+            L.release()
+            r.append('no-error')
+        except RuntimeError:
+            r.append('RuntimeError')
+        out['rlock_reentrant_depth'] = r
+
+    def s2():
+        L = Lock()
+        r = [L.acquire(), L.acquire(blocking=False)]
+        L.release()
+        r.append(L.acquire(blocking=False))
+        L.release()
+        out['lock_not_reentrant'] = r
+
+    def s4():
+        c = Condition(RLock())
+        r = []
+        for f in (c.wait, c.notify_all, c.release):
+            try:
+                f()
+                r.append('no-error')
+            except RuntimeError:
+                r.append('RuntimeError')
+        out['unowned_errors'] = r
+
+    spawn_join([s1])
+    spawn_join([s2])
+    spawn_join([s4])
+
+    # wait() releases every level of the RLock and restores them; notify_all wakes every waiter
+    c = Condition(RLock())
+    st = {'waiting': 0, 'log': []}
+
+    def waiter(k):
+        def run():
+            c.acquire(); c.acquire()
+            st['waiting'] += 1
+            c.wait()
+            st['log'].append('woken')
+            c.release(); c.release()
+            try:
+                c.release()
+                st['log'].append('third-release-ok')
+            except RuntimeError:
+                st['log'].append('third-release-RuntimeError')
+        return run
+
+    def notifier():
+        while True:
+            c.acquire()              # only possible while the waiters are inside wait() or not yet started
+            if st['waiting'] == 2:
+                c.notify_all()
+                c.release()
+                return
+            c.release()
+
+    spawn_join([waiter(0), waiter(1), notifier])
+
+    def final():     # the lock is free again
+        out['wait_releases_all_levels_and_notify_all'] = sorted(st['log']) + [c.acquire(blocking=False)]
+        c.release()
+
+    spawn_join([final])
+
+    # a non-blocking acquire fails while another thread owns the lock (RLock and Lock)
+    for name, mk in (('rlock', RLock), ('lock', Lock)):
+        L = mk()
+        gate = Condition(RLock())
+        st2 = {'held': False, 'done': False, 'r': None}
+
+        def holder():
+            L.acquire()
+            gate.acquire(); st2['held'] = True; gate.release()
+            while True:
+                gate.acquire()
+                d = st2['done']
+                gate.release()
+                if d:
+                    break
+            L.release()
+
+        def prober():
+            while True:
+                gate.acquire()
+                h = st2['held']
+                gate.release()
+                if h:
+                    break
+            st2['r'] = L.acquire(blocking=False)
+            gate.acquire(); st2['done'] = True; gate.release()
+
+        spawn_join([holder, prober])
+        out['nonblocking_fails_when_owned_' + name] = st2['r']
+    return out
+
+
+def primitive_conformance(seeds=(1, 2, 3, 4, 5)):
+    """Compares the virtual Lock/RLock/Condition with the real ones of `threading` on the scenarios above.
+    Returns a list of differences (empty = conforming)."""
+    import random
+
+    def real_spawn_join(fns):
+        ths = [threading.Thread(target=f, daemon=True) for f in fns]
+        for t in ths:
+            t.start()
+        for t in ths:
+            t.join(20)
+        if any(t.is_alive() for t in ths):
+            raise RuntimeError('real-thread scenario did not terminate')
+
+    real = _scenarios(threading.Lock, threading.RLock, threading.Condition, real_spawn_join)
+    diffs = []
+    for seed in seeds:
+        rng = random.Random(seed)
+        holder = {'S': Sched()}
+
+        def virt_spawn_join(fns):
+            S = holder['S']
+            recs = [S.spawn(lambda rec, f=f: (S.yield_point(('idle',)), f())) for f in fns]
+            steps = 0
+            while True:
+                alive = [r for r in recs if not r['done']]
+                if not alive:
+                    break
+                runnable = [r for r in alive if S.runnable(r)]
+                if not runnable or steps > 20000:
+                    S.abort_all()
+                    raise RuntimeError('virtual scenario blocked')
+                S.grant(rng.choice(runnable))
+                steps += 1
+            crashed = [r['crash'] for r in recs if r['crash']]
+            if crashed:
+                raise RuntimeError('virtual scenario crashed: ' + crashed[0])
+
+        virt = _scenarios(lambda: holder['S'].Lock(), lambda: holder['S'].RLock(),
+                          lambda lock=None: holder['S'].Condition(lock), virt_spawn_join)
+        if virt != real:
+            diffs.append({'seed': seed, 'real': real, 'virtual': virt})
+    return diffs, real
+
+
+def kernel_conformance(workdir):
+    """Compares the virtual kernel with the real fcntl.lockf of this OS on the facts lock.py relies on: shared locks of
+    two processes are compatible; a non-blocking conflicting request raises BlockingIOError(11, 'Resource temporarily
+    unavailable'); a process converts its own lock freely; closing ANOTHER descriptor of the file drops the process's
+    lock.  Uses real fork.  Returns (differences, real observations)."""
+    import json
+    workdir = Path(workdir)
+    workdir.mkdir(parents=True, exist_ok=True)
+    f = workdir / 'kernel_conformance.lock'
+    f.write_text('x')
+    SH, EX, NB, UN = _real_fcntl.LOCK_SH, _real_fcntl.LOCK_EX, _real_fcntl.LOCK_NB, _real_fcntl.LOCK_UN
+
+    def attempt(lockf, fd, op):
+        try:
+            lockf(fd, op)
+            return 'ok'
+        except BlockingIOError as e:
+            return ['BlockingIOError', e.errno, e.strerror]
+        except OSError as e:
+            return ['OSError', e.errno]
+
+    def in_child(fn):
+        r, w = _real_os.pipe()
+        pid = _real_os.fork()
+        if pid == 0:
+            try:
+                _real_os.close(r)
+                res = fn()
+                _real_os.write(w, json.dumps(res).encode())
+            finally:
+                _real_os._exit(0)
+        _real_os.close(w)
+        data = b''
+        while True:
+            chunk = _real_os.read(r, 65536)
+            if not chunk:
+                break
+            data += chunk
+        _real_os.close(r)
+        _real_os.waitpid(pid, 0)
+        return json.loads(data.decode())
+
+    def probe_real():
+        fd = _real_os.open(str(f), _real_os.O_RDWR)
+        res = [attempt(_real_fcntl.lockf, fd, EX | NB), attempt(_real_fcntl.lockf, fd, SH | NB)]
+        _real_fcntl.lockf(fd, UN)
+        _real_os.close(fd)
+        return res
+
+    real = {}
+    fd1 = _real_os.open(str(f), _real_os.O_RDWR)
+    _real_fcntl.lockf(fd1, SH)
+    real['other_holds_SH'] = in_child(probe_real)
+    real['own_upgrade'] = attempt(_real_fcntl.lockf, fd1, EX | NB)
+    real['other_holds_EX'] = in_child(probe_real)
+    real['own_downgrade'] = attempt(_real_fcntl.lockf, fd1, SH | NB)
+    fd2 = _real_os.open(str(f), _real_os.O_RDWR)
+    _real_os.close(fd2)                        # drops the lock taken through fd1
+    real['after_closing_another_fd'] = in_child(probe_real)
+    _real_os.close(fd1)
+
+    class _S:                                   # the virtual kernel outside a schedule: lockf must not park
+        aborting = False
+        events = []
+
+        def yield_point(self, want):
+            pass
+
+    K = VKernel(_S())
+    virt = {}
+
+    def probe_virt():
+        fd = K.open(1, str(f))
+        res = [attempt(lambda a, b: K.lockf(1, a, b), fd, EX | NB), attempt(lambda a, b: K.lockf(1, a, b), fd, SH | NB)]
+        K.lockf(1, fd, UN)
+        K.close(1, fd)
+        return res
+
+    v1 = K.open(0, str(f))
+    K.lockf(0, v1, SH)
+    virt['other_holds_SH'] = probe_virt()
+    virt['own_upgrade'] = attempt(lambda a, b: K.lockf(0, a, b), v1, EX | NB)
+    virt['other_holds_EX'] = probe_virt()
+    virt['own_downgrade'] = attempt(lambda a, b: K.lockf(0, a, b), v1, SH | NB)
+    v2 = K.open(0, str(f))
+    K.close(0, v2)
+    virt['after_closing_another_fd'] = probe_virt()
+    K.close(0, v1)
+    diffs = [] if virt == real else [{'real': real, 'virtual': virt}]
+    return diffs, real
